@@ -7,6 +7,16 @@ import (
 	"pgregory.net/rapid"
 )
 
+func TestConcurrentProgramsTypecheck(t *testing.T) {
+	rapid.Check(t, func(t *rapid.T) {
+		p := Generate(t, ConcurrentProfile(nil))
+		_, err := core.LoadSource(map[string]string{"main.go": p.Main, "prelude.go": AnalysedPrelude})
+		if err != nil {
+			t.Fatalf("%v\n%s", err, p.Main)
+		}
+	})
+}
+
 func TestDispatchProgramsTypecheck(t *testing.T) {
 	rapid.Check(t, func(t *rapid.T) {
 		p := Generate(t, DispatchProfile(nil))
